@@ -137,3 +137,58 @@ def run(prog, res, cg=None):
                         "finalizer's forced flush would then run Scheme code inside a collection" % bf.nodes[bad[0]].get("o"),
                         unit=bf.unit.display))
     return stat
+
+
+def run_c(prog, res, root=None):
+    """Scheme half of the atomicity argument: the lock/owner/waiter slots of Mutex and
+    Condition-Variable records are written only by the C primitives (which are atomic, clause a).
+    The record setters for those slots, discovered from lib/srfi/18/types.scm, must not be used by
+    the library's Scheme code nor exported."""
+    import os
+    import slint
+    from slint import Lst, Sym, head
+    root = root or getattr(prog, "root", None) or "/repo"
+    stat = res.stat("C11.c", "(srfi 18) Scheme code never writes the lock/owner/waiter slots itself (only the atomic C "
+                    "primitives do)", floor=2)
+    d = os.path.join(root, "lib", "srfi", "18")
+    types = os.path.join(d, "types.scm")
+    if not os.path.exists(types):
+        raise AnalysisBroken("anchor vanished: lib/srfi/18/types.scm")
+    setters = {}
+    for f in slint.read_file(types):
+        if head(f) == "define-record-type" and len(f) > 3 and str(f[1]) in ("Mutex", "Condition-Variable"):
+            for fld in f[4:]:
+                if isinstance(fld, Lst) and len(fld) >= 3 and str(fld[0]) != "specific":
+                    setters[str(fld[2])] = "%s.%s" % (f[1], fld[0])
+    if len(setters) < 2:
+        raise AnalysisBroken("anchor vanished: Mutex / Condition-Variable setters in types.scm")
+    files = [os.path.join(d, x) for x in sorted(os.listdir(d)) if x.endswith(".scm")] + \
+            [os.path.join(root, "lib", "srfi", "18.sld")]
+    for path in files:
+        if not os.path.exists(path):
+            continue
+        forms = slint.read_file(path)
+        rel = os.path.relpath(path, root)
+        for name, slot in setters.items():
+            stat.sites += 1
+            stat.obligations += 1
+            uses = []
+            st = list(forms)
+            while st:
+                x = st.pop()
+                if isinstance(x, Lst):
+                    if head(x) == "define-record-type":
+                        continue
+                    st.extend(x)
+                elif isinstance(x, Sym) and str(x) == name:
+                    uses.append(getattr(x, "line", 0))
+            if not uses:
+                stat.discharged += 1
+            else:
+                res.add(Finding("C11", "C11.c.scheme-writes-lock-slot", name, "%s in %s" % (name, os.path.basename(path)),
+                                "%s:%d" % (rel, uses[0]),
+                                "%s uses the record setter %s (slot %s): the lock state is then updated by several VM "
+                                "instructions, between which the thread can be pre-empted - only the C primitives, which are "
+                                "single instructions, may write it" % (rel, name, slot), unit=rel))
+    stat.sample({"setters_checked": sorted(setters), "files": [os.path.relpath(p, root) for p in files if os.path.exists(p)]})
+    return stat
